@@ -5,4 +5,5 @@ CONSTANTS
   WakeCheck = TRUE
   Slice = 1
   MaxVisits = 14
-INVARIANTS InvRoundRobin InvNoEarlyWake InvScriptDoneTruth InvTerminateEffective InvIsolation
+  WaitCheck = TRUE
+INVARIANTS InvRoundRobin InvNoEarlyWake InvScriptDoneTruth InvTerminateEffective InvWaitHolds InvIsolation
